@@ -735,6 +735,20 @@ func (g *gen) geomOfType(t string) *mgeom.Geom {
 	if g.r.Chance(0.3) {
 		m.S = mgeom.SRID(g.r)
 	}
+	if t == mgeom.GC && g.r.Chance(0.4) {
+		// members that carry their own SRID (as members decoded from EWKB or
+		// built by an application do)
+		var rec func(m *mgeom.Geom)
+		rec = func(m *mgeom.Geom) {
+			for _, c := range m.G {
+				if g.r.Chance(0.6) {
+					c.S = []int{4326, 3857, 1, 1 << 31}[g.r.Intn(4)]
+				}
+				rec(c)
+			}
+		}
+		rec(m)
+	}
 	return m
 }
 
